@@ -105,10 +105,6 @@ def isfloatbits(obs, x):
 
 def oracle0(op, args, obs):
     if obs[0] == "panic":
-        if op == "./" and args[0][0] == "i" and args[1] == I(0):
-            return ("dot-divide-int-by-zero-panics", "a number or an error value")
-        if op in TERN and all(a[0] == "i" for a in args) and args[2][1] == 0:
-            return ("mod-op-zero-modulus-panics", "a number or an error value")
         return ("panic-other", "a number or an error value")
     if obs[0] not in ("int", "float", "error"):
         return ("unexpected-kind", "int, float or error")
@@ -140,19 +136,18 @@ def oracle0(op, args, obs):
         r = a + b
         if in64(r):
             return want_int(r)
-        return want_float(fl(a) + fl(b), "plus-min-int64-plus-min-int64-gives-int-zero" if (a, b) == (MIN, MIN) else "other")
+        return want_float(fl(a) + fl(b))
     if op == "-":
         r = a - b
         if in64(r):
             return want_int(r)
-        return want_float(fl(a) - fl(b), "minus-zero-minus-min-int64-gives-int-min-int64" if (a, b) == (0, MIN) else "other")
+        return want_float(fl(a) - fl(b))
     if op == "*":
         r = a * b
         c = fl(a) * fl(b)
         if in64(r):          # documented heuristic: float as soon as the DOUBLE product exceeds 2^63 - 1024
             return want_int(r, "times-float-although-product-fits-within-1024-of-2^63" if abs(c) > float(T1024) else "other")
-        # the double product of a product that does not fit can still round to <= 2^63 - 1024: today's test lets the wrapped int through
-        return want_float(c, "times-wrapped-int-product-just-above-2^63" if abs(c) <= float(T1024) else "other")
+        return want_float(c)              # never a wrapped integer
     if op in ("/", "//", "%") and b == 0:
         return None if obs[0] in ("float", "error") else ("zero-divisor-not-float-or-error", "float or error")
     if op == "/":
@@ -160,17 +155,16 @@ def oracle0(op, args, obs):
             q = a // b
             if in64(q):
                 return want_int(q)
-            return want_float(fdiv(fl(a), fl(b)), "divide-min-int64-by-minus-one-wraps")
+            return want_float(fdiv(fl(a), fl(b)))         # -2^63 / -1: the float 2^63
         return want_float(fdiv(fl(a), fl(b)))
     if op == "//":
         q = a // b
         if in64(q):
             return want_int(q)
-        return None if obs[0] == "float" else ("divide-min-int64-by-minus-one-wraps", "float 2^63")
+        return want_float(-fl(a))                          # -2^63 // -1: the float 2^63
     if op == "%":
         m = a % b
-        cls = "modulus-of-exact-multiple-with-opposite-signs-returns-divisor" if m == 0 and obs == ("int", b) and (a < 0) != (b < 0) else "other"
-        return want_int(m, cls)
+        return want_int(m)
     if op == "**":
         thru = "pow-through-float64-inexact-beyond-2^53"
         lossy = abs(a) > 2 ** 53 or abs(b) > 2 ** 53
@@ -195,7 +189,7 @@ def oracle0(op, args, obs):
         return want_int(wrap(a * b))
     if op == "./":
         if b == 0:
-            return None
+            return None if obs[0] in ("float", "error") else ("zero-divisor-not-float-or-error", "float or error")
         q = abs(a) // abs(b)
         return want_int(wrap(q if (a < 0) == (b < 0) else -q))
     if op == "&":
@@ -244,13 +238,13 @@ def oracle0(op, args, obs):
         m = v[2]
         if op == "mexp" and b < 0:
             return None if obs[0] == "error" else ("mexp-negative-exponent-not-error", "error")
-        if m <= 0:
-            return None                    # only "no crash" is claimed for a non-positive modulus (panic handled above)
+        if m == 0:
+            return None if obs[0] == "error" else ("zero-modulus-not-error", "an error value")
+        if m < 0:
+            return None                    # only "no crash" is claimed for a negative modulus (panic handled above)
         exact = {"madd": lambda: (a + b) % m, "msub": lambda: (a - b) % m, "mmul": lambda: (a * b) % m, "mexp": lambda: pow(a, b, m)}[op]()
         if obs == ("int", exact):
             return None
-        if op == "mexp" and b in (0, 1):
-            return ("mexp-exponent-0-or-1-not-reduced", "int %d" % exact)
         inter = {"madd": a + b, "msub": a - b, "mmul": a * b, "mexp": max(abs(a), m) ** 2}[op]
         return ("mod-op-reduces-after-64-bit-wrap" if not in64(inter) else "other", "int %d" % exact)
     return ("unknown-operator", "")
@@ -283,19 +277,9 @@ def legacy_value(op, v):
     """observation today's kernels give on int operands v, for the operators with a recorded defect; None = not modelled here"""
     a = v[0]
     b = v[1] if len(v) > 1 else None
-    if op == "+":
-        return ("int", 0) if (a, b) == (MIN, MIN) else None
-    if op == "-":
-        return ("int", MIN) if (a, b) == (0, MIN) else None
     if op == "*":
         c = fl(a) * fl(b)
-        return ("float", fbits(c)) if abs(c) > float(T1024) else ("int", wrap(a * b))
-    if op in ("/", "//") and (a, b) == (MIN, -1):
-        return ("int", MIN)
-    if op == "%" and b != 0:
-        r = abs(a) % abs(b)
-        r = -r if a < 0 else r
-        return ("int", wrap(r + b) if ((a >= 0 and b < 0) or (a < 0 and b >= 0)) else r)
+        return ("float", fbits(c)) if abs(c) > float(T1024) or not in64(a * b) else ("int", a * b)
     if op in ("abs", "ceil", "floor", "round"):
         return ("int", f2i_amd64(abs(fl(a)) if op == "abs" else fl(a)))
     if op == "sgn":
@@ -306,11 +290,7 @@ def legacy_value(op, v):
     if op in ("madd", "msub", "mmul") and v[2] != 0:
         return ("int", py_mlrmod(wrap({"madd": a + b, "msub": a - b, "mmul": a * b}[op]), v[2]))
     if op == "mexp" and v[2] != 0 and b >= 0:
-        if b == 0:
-            return ("int", 1)
-        if b == 1:
-            return ("int", a)
-        ap, c, u, m = a, 1, b, v[2]
+        ap, c, u, m = a, py_mlrmod(1, v[2]), b, v[2]
         while u:
             if u & 1:
                 c = py_mlrmod(wrap(c * ap), m)
@@ -336,17 +316,9 @@ def oracle(op, args, obs):
 # exactly there; the property oracle still judges the implementation on them) and the evidence names the class under
 # "model_stale_for".  Anything else that differs is reported.
 PROBES = {
-    "modulus-of-exact-multiple-with-opposite-signs-returns-divisor": ("%", [I(-10), I(5)]),
-    "times-wrapped-int-product-just-above-2^63": ("*", [I(16440948372290153), I(561)]),
     "times-float-although-product-fits-within-1024-of-2^63": ("*", [I(MAX), I(1)]),
-    "plus-min-int64-plus-min-int64-gives-int-zero": ("+", [I(MIN), I(MIN)]),
-    "minus-zero-minus-min-int64-gives-int-min-int64": ("-", [I(0), I(MIN)]),
-    "divide-min-int64-by-minus-one-wraps": ("/", [I(MIN), I(-1)]),
-    "dot-divide-int-by-zero-panics": ("./", [I(1), I(0)]),
-    "mod-op-zero-modulus-panics": ("madd", [I(5), I(3), I(0)]),
     "pow-through-float64-inexact-beyond-2^53": ("**", [I(3), I(39)]),
     "pow-negative-exponent-underflow-gives-int-zero": ("**", [I(2), I(-1075)]),
-    "mexp-exponent-0-or-1-not-reduced": ("mexp", [I(10), I(1), I(3)]),
     "mod-op-reduces-after-64-bit-wrap": ("mmul", [I(2 ** 32), I(2 ** 32), I(7)]),
     "int-preserving-math-function-goes-through-float64": ("floor", [I(2 ** 53 + 1)]),
     "roundm-zero-modulus-gives-garbage-int": ("roundm", [I(7), I(0)]),
@@ -359,27 +331,11 @@ def footprints(op, args):
         return set()
     v = [a[1] for a in args]
     out = set()
-    if op == "%" and v[1] != 0 and v[0] % v[1] == 0 and (v[0] < 0) != (v[1] < 0):
-        out.add("modulus-of-exact-multiple-with-opposite-signs-returns-divisor")
     if op == "*":
         r, c = v[0] * v[1], fl(v[0]) * fl(v[1])
         if in64(r) and abs(c) > float(T1024):
             out.add("times-float-although-product-fits-within-1024-of-2^63")
-        if not in64(r) and abs(c) <= float(T1024):
-            out.add("times-wrapped-int-product-just-above-2^63")
-    if op == "+" and v == [MIN, MIN]:
-        out.add("plus-min-int64-plus-min-int64-gives-int-zero")
-    if op == "-" and v == [0, MIN]:
-        out.add("minus-zero-minus-min-int64-gives-int-min-int64")
-    if op in ("/", "//") and v == [MIN, -1]:
-        out.add("divide-min-int64-by-minus-one-wraps")
-    if op == "./" and v[1] == 0:
-        out.add("dot-divide-int-by-zero-panics")
     if op in TERN:
-        if v[2] == 0:
-            out.add("mod-op-zero-modulus-panics")
-        if op == "mexp" and v[1] in (0, 1):
-            out.add("mexp-exponent-0-or-1-not-reduced")
         inter = {"madd": v[0] + v[1], "msub": v[0] - v[1], "mmul": v[0] * v[1], "mexp": max(abs(v[0]), abs(v[2])) ** 2}[op]
         if not in64(inter):
             out.add("mod-op-reduces-after-64-bit-wrap")
@@ -437,13 +393,24 @@ def float_grid(ctx, nrand):
     return out
 
 
+# witnesses of the defects repaired by fix: commits (7910d392d 9dd59d176 948308289 0499ffd56 94ff40520 83ceb0713 bbf6f604b):
+# always generated, always judged by the oracle AND always compared with the Coq model
+ANCHORS = [("%", [I(-10), I(5)]), ("%", [I(6), I(-3)]), ("%", [I(0), I(-1)]), ("*", [I(16440948372290153), I(561)]),
+           ("*", [I(-16440948372290153), I(561)]), ("*", [I(89547301328687144), I(-103)]), ("*", [I(-1), I(MIN)]), ("*", [I(MIN), I(-1)]),
+           ("+", [I(MIN), I(MIN)]), ("-", [I(0), I(MIN)]), ("/", [I(MIN), I(-1)]), ("//", [I(MIN), I(-1)]), ("./", [I(1), I(0)]),
+           ("./", [I(0), I(0)]), ("./", [I(-7), I(0)]), ("./", [I(MIN), I(-1)]), ("madd", [I(5), I(3), I(0)]), ("msub", [I(5), I(3), I(0)]),
+           ("mmul", [I(5), I(3), I(0)]), ("mexp", [I(5), I(3), I(0)]), ("mexp", [I(10), I(1), I(3)]), ("mexp", [I(5), I(0), I(1)]),
+           ("mexp", [I(-7), I(1), I(5)]), ("mexp", [I(5), I(0), I(-1)])]
+
+
 def gen_cases(ctx):
     """the full cross product boundary grid x itself x every operator, plus structured and random operands"""
     rng = ctx.rng
     full = ctx.tier == "thorough"
     G = int_grid(ctx, full)
     FG = float_grid(ctx, 60 if full else 24)
-    cases = []
+    cases = list(ANCHORS)
+    ctx.dist("repaired_defect_anchors", len(ANCHORS))
     # (1) int grid x int grid x every binary operator
     for op in BIN:
         for a in G:
@@ -598,10 +565,13 @@ def run(ctx):
     def size(i):
         return sum(abs(a[1]).bit_length() if a[0] == "i" else 64 for a in cases[i][1])
     reported_idx = set()
+    reported_ops = set()
     for cls, lst in sorted(flagged.items()):
         i, exp = min(lst, key=lambda t: (size(t[0]), t[0]))
         op, args = cases[i]
         reported_idx.add(i)
+        if ":" in cls:
+            reported_ops.add((cls.split(":")[0], cls.split(":", 1)[1]))
         ctx.violation(dict(describe(op, args, obs[i], exp), **{"class": cls.split(":")[0], "broken": "property oracle", "witnesses_in_class": len(lst)}))
     for i in (0, len(cases) // 3, len(cases) // 2, len(cases) - 1):
         ctx.sample(describe(cases[i][0], cases[i][1], obs[i]))
@@ -636,6 +606,8 @@ def run(ctx):
         chosen += rng.sample(mixed, min(len(mixed), per_op // 2 if op not in INT_ONLY and op not in TERN else 12))
     for cls, lst in flagged.items():
         chosen += [i for i, _ in lst[:(40 if ctx.tier == 'thorough' else 12)]]
+    anchors = set((op, tuple(args)) for op, args in ANCHORS)
+    chosen += [i for i, (op, args) in enumerate(cases) if (op, tuple(args)) in anchors]
     chosen = sorted(set(chosen))
     if repaired:
         chosen = [i for i in chosen if not (footprints(cases[i][0], cases[i][1]) & repaired)]
@@ -652,7 +624,10 @@ def run(ctx):
         i = chosen[j]
         op, args = cases[i]
         r = oracle(op, args, obs[i])
-        if r is not None and r[0] in ("other", "panic-other") and i not in reported_idx:
+        if r is not None and r[0] in ("other", "panic-other"):
+            if i in reported_idx or (r[0], op) in reported_ops:
+                continue                     # this failing input (or one of the same operator) is already reported by the oracle pass
+            reported_ops.add((r[0], op))
             ctx.violation(dict(describe(op, args, obs[i], r[1]), **{"class": r[0], "broken": "correspondence C07.Harness.chk"}))
         else:
             ctx.violation(dict(describe(op, args, obs[i]), **{"broken": "correspondence C07.Harness.chk: the Coq model and the implementation differ on this input"
@@ -671,7 +646,7 @@ def cli_tie(ctx):
     G = int_grid(ctx, False)
     rows = [(rng.choice(G), rng.choice(G)) for _ in range(120)] + [(MIN, MIN), (0, MIN), (MAX, 1), (3, 39), (-10, 5), (6, -3), (7, 0), (MIN, -1),
                                                                     (16440948372290153, 561), (2 ** 53 + 1, 1)]
-    ops = [o for o in BIN if o not in ("./", "roundm", "min", "max")]
+    ops = [o for o in BIN if o not in ("roundm", "min", "max")]
     prog = "".join("$r%d = $a %s $b; $t%d = typeof($r%d);" % (k, o, k, k) for k, o in enumerate(ops))
     prog += "$rm = min($a,$b); $tm = typeof($rm); $rx = max($a,$b); $tx = typeof($rx); $ra = abs($a); $ta = typeof($ra);"
     inp = "".join("a=%d,b=%d\n" % r for r in rows).encode()
